@@ -1012,6 +1012,8 @@ func execStateless(line string, out *xvlib.Out, scratch string) (string, bool) {
 		return guarded(out, []string{line}, func() string { return execCor(w, line, out) }), true
 	case w[0] == "stress":
 		return execStress(w, line, out, scratch), true
+	case w[0] == "conc" && len(w) == 4:
+		return guarded(out, []string{line}, func() string { return execConc(w, line, out) }), true
 	case w[0] == "errflood" && len(w) == 2:
 		return guarded(out, []string{line}, func() string { return execErrFlood(w, line, out) }), true
 	}
@@ -1534,6 +1536,11 @@ func main() {
 		run("errflood 6000", false)
 	} else {
 		run("errflood 1400", false)
+	}
+
+	// ---- 6c. messages built and decoded by many goroutines at once
+	for i := 0; i < 2; i++ {
+		run(fmt.Sprintf("conc %d 16 %d", args.Seed*7+uint64(i), map[bool]int{false: 120, true: 1500}[thorough]), false)
 	}
 
 	// ---- 7. concurrent Register / UnRegister / Dispatch (child process; a runtime crash is caught there)
